@@ -6,6 +6,9 @@ TECH = "static analysis: repo-specific rules over type-checked, callee-resolved 
 CHECKS = {
  "C01": ("selection isolation, complete-only, +1 once, integer printing, 2n+1 shape form decided on all paths of read_site / Runner::run / Create::run", "dominance + field-sensitive dataflow over MIR; affine-form extraction", "4/C01"),
  "C02": ("exact/projectable/insufficient decision shape, argument roles down to hypergeometric_pmf, 2i+1 sibling agreement, validation before construction", "comparison-operator set over compared values; argument-role tracing; affine-form cross-check", "4/C02"),
+ "C03": ("NARROW: rejection of zero / larger / different-dimensional targets dominates construction (element-wise), Spectrum::project validates first and projects every (value, index) pair unconditionally into a zero result, add_unchecked = cell + projected * weight, hypergeometric building blocks; the numerical identity and its laws are NOT decided", "dominance + operand-role tracing + loop-body unconditionality over MIR", "6/C03 and 11.2"),
+ "C04": ("NARROW: the three rejections guard both unchecked calls, sorted-or-sorted-copy, ascending renumbering original - removed, Array::sum folds every view into a zero array of the remaining shape, remove list passed through; that the sums are the array sums for all shapes is NOT decided", "edge dominance, adaptor-chain and closure-shape checks over MIR", "6/C04 and 11.2"),
+ "C05": ("NARROW: fill table, fold().into_spectrum(fill), straight-line from_spectrum with one pass over (i, n-1-i), T = sum(len-1), mid = T/2, diagonal = T even, per-cell decision table Less/Equal/Greater x diagonal with exactly one store at i; index/mirror arithmetic for all shapes and the mass/idempotence/symmetry laws are NOT decided", "decision-table extraction and expression-shape comparison per arm over MIR", "6/C05 and 11.2"),
  "C06": ("CLI statistic -> library method -> estimator wiring (14+12 rows), D-statistic theta pairs, normalise-before-f typestate, guards before unchecked estimators", "match-table extraction; who-may-call; dominance; compile-fail witnesses (thorough)", "4/C06"),
  "C07": ("writer/reader literal and table agreement for text and npy, to_le_bytes/from_le_bytes pairing, one detector and writer arm per format, auto-detection over whole input", "format-template decoding and table cross-check over MIR constants", "4/C07"),
  "C08": ("per-allele {0,1} bound before classification (information flow), missing/ploidy arms, single VCF/BCF funnel, totality, error reaches Err naming contig:position", "backward slicing per allele + dominating-branch value-set reasoning", "4/C08"),
@@ -22,16 +25,16 @@ CHECKS = {
  "C19": ("Option-returning accessors contain no panic site, FusedIterator / ExactSizeIterator obligations of the 4 iterators, next/size_hint total", "may-panic inventory restricted to the array API; field-write analysis of None paths; size_hint slice", "4/C19"),
 }
 NA = {
- "C03": "numerical identity of the projection operator (sum of products of hypergeometric pmfs), finiteness at large sizes and algebraic laws between evaluations: no clause is visible in the shape of the code beyond input validation (covered by C17 contracts) and the 2i+1 conversion (decided under C02.c); no sound static argument in reach bounds these values",
- "C04": "equality of entries with array sums over all shapes/subsets/orders is index and stride arithmetic on runtime values; the structural preconditions (validate, sort, shift) are contract-checked under C17 and the keep->complement conversion under C13.d",
- "C05": "which entry is folded onto which (flat index i with n-1-i, T/2, parity) and mass preservation/idempotence are arithmetic over all shapes and values; there is no ordering, ownership, table or typestate clause a rule could name without re-deriving that arithmetic",
+ "C03x": "numerical identity of the projection operator (sum of products of hypergeometric pmfs), finiteness at large sizes and algebraic laws between evaluations: no clause is visible in the shape of the code beyond input validation (covered by C17 contracts) and the 2i+1 conversion (decided under C02.c); no sound static argument in reach bounds these values",
+ "C04x": "equality of entries with array sums over all shapes/subsets/orders is index and stride arithmetic on runtime values; the structural preconditions (validate, sort, shift) are contract-checked under C17 and the keep->complement conversion under C13.d",
+ "C05x": "which entry is folded onto which (flat index i with n-1-i, T/2, parity) and mass preservation/idempotence are arithmetic over all shapes and values; there is no ordering, ownership, table or typestate clause a rule could name without re-deriving that arithmetic",
 }
 
 def main():
     claimed = [p for p in sorted(CHECKS) if os.path.exists(os.path.join(V, "engine", "sfsverif", "CLAIMED")) is False or True]
     impl = json.load(open(os.path.join(V, "engine", "claimed.json")))
     checks = []
-    na = [{"property_id": k, "reason": v} for k, v in sorted(NA.items())]
+    na = [{"property_id": k, "reason": v} for k, v in sorted(NA.items()) if not k.endswith("x")]
     for pid in sorted(CHECKS):
         what, tech, ref = CHECKS[pid]
         if pid not in impl:
